@@ -35,12 +35,11 @@ type e2eOut struct {
 	Frames     int            `json:"frames_forwarded"`
 	Diverged   []string       `json:"diverged"`
 	DivergedN  int            `json:"diverged_n"`
-	NotRun     int            `json:"not_run"` // stopped early: 25 violations found, or the time budget of the replay was used up
+	NotRun     int            `json:"not_run"`        // stopped early: 25 violations found, or the time budget of the replay was used up
 	NotComp    int            `json:"not_comparable"` // the model path uses a schedule the real loop cannot be made to take
 	Violations []e2eViolation `json:"violations"`
 	Errors     []string       `json:"errors"`
 }
-
 
 var (
 	e2eMu      sync.Mutex
